@@ -116,7 +116,7 @@ PROPERTIES = {
                  "from zero stays bounded) x calendar-queue parameters (and the default ones); every handler logs (id, scheduled, SimTime::now()), attempts "
                  "add_event in the past under catch_unwind on marked events, the clock writer is observed through hook H4 and the event set is walked "
                  "through H6; every third program is additionally driven in random n-event / until-time steps, and after every step add_event(sim_time() - 1 ns) "
-                 "is attempted on the paused runtime. Oracle: now == scheduled, non-decreasing, each event exactly once, every add at/after now accepted, every "
+                 "is attempted on the paused runtime (half of these stepped runs also add events from outside while paused, at / after the reported time). Oracle: now == scheduled, non-decreasing, each event exactly once, every add at/after now accepted, every "
                  "add before now / before the start time / before the time reported while paused rejected and never dispatched, end time = last event. Non-trivial = program with >= 3 events that ran clean; "
                  "distinct = hash of the program."),
         "assumptions": ["the handlers of the monitor application are the observation boundary; H4 observes every SimTime::set_now",
@@ -161,7 +161,7 @@ PROPERTIES = {
         "level": "exploration",
         "rule": ("event programs as for C02; the unlimited run of the real code gives the sequence E; limited runs built with Builder::max_itr / max_time / "
                  "limit (nested And/Or trees, several calls combine with or): for programs <= 30 events EVERY count 0..|E|+2 and every time below / at / "
-                 "between / above the timestamps, plus random trees of depth <= 3. Oracle: independent limit-tree evaluator gives the stop index p; handled "
+                 "between / above the timestamps, plus random trees of depth <= 3; every single count / time limit is also applied through the stepping interface (start, one dispatch_n_events / dispatch_events_until, finish). Oracle: independent limit-tree evaluator gives the stop index p; handled "
                  "== E[0..p), event_count == p, end time == time of E[p-1] (start time if p = 0), remaining == multiset of (event, timestamp) scheduled by "
                  "the prefix and not handled. Non-trivial = run stopped with events pending after dispatching at least one; distinct = hash of (program, limit)."),
         "exhaustive_part": "every event-count limit and every time limit around every timestamp for programs of <= 30 events",
@@ -275,7 +275,7 @@ PROPERTIES = {
                  "spawn bursts of N tasks that yield k times and optionally sleep to a common deadline (timer wake-up of N tasks at once), notify_waiters "
                  "broadcasts to N waiting tasks, wake chains of depth <= 2000 through oneshot / mpsc / semaphore / join handles, one task draining up to 10000 "
                  "channel items in one instant (tokio coop budget), N tasks woken by a processing element that consumes the trigger message (the handler never runs "
-                 "in that event); N in {1,2,60,61,62,122,123,200,1000,5000}; each with tokio::spawn and with spawn_local "
+                 "in that event), a handler that fires its trigger and requests the shutdown of its module in the same event; N in {1,2,60,61,62,122,123,200,1000,5000}; each with tokio::spawn and with spawn_local "
                  "(every tenth case: spawn_local work needing more than one LocalSet turn of 61 polls). Every task logs SimTime::now() after each await; the "
                  "instant its condition became true is known by construction; a later sentinel event of the module makes stranded work visible. Oracle: "
                  "logged now == enabling instant for every wake-up, every task finished at the end. Non-trivial = case with an instant needing > 61 polls; "
@@ -296,7 +296,7 @@ PROPERTIES = {
     "C09": {
         "level": "fault_enumeration",
         "rule": ("root p0 with 1..3 victim children and a receiver p1; per victim 0..3 shutdown / restart cycles plus requests that arrive while it is down, "
-                 "requested from a message handler or from a task, restart never / in d / at t, two victims sharing the same instants; every incarnation sends a message from its first start-up stage (it must be delivered), ticker task, "
+                 "requested from a message handler or from a task, restart never / in d / at t, two victims sharing the same instants; every incarnation sends a message from its first start-up stage and one in the very event in which it requests its shutdown (both must be delivered); a quarter of the victims is an AsyncFn block (one task receiving the module's messages) instead of a hand-written module, ticker task, "
                  "self-message beat chain, data messages over a delayed channel (also in flight at the request / restart instant), messages passing through a "
                  "transit gate of the victim on their way to p1 (sent while up, at the gate while down), the parent probing child() periodically; every fifth "
                  "case places arrivals exactly on request / restart instants. All callbacks log into one global sequence. Oracle = evaluation of the statement: "
@@ -367,8 +367,8 @@ PROPERTIES = {
         "level": "fault_enumeration",
         "crash_is_violation": True,
         "rule": ("generated deterministic models (3..5 modules, ring or star, 1..2 start stages, timers that inject tokens which are forwarded with a hop budget, "
-                 "optional tasks with timer steps); for every model a fault-free baseline run gives the occurrence counts, then EVERY single placement "
-                 "(module x {at_sim_start(stage), k-th handle_message before / after its sends, at_sim_end} x {non-catching, catching stereotype}, plus every step "
+                 "optional tasks with timer steps, a quarter of the modules shuts down and restarts after its k-th message); for every model a fault-free baseline run gives the occurrence counts, then EVERY single placement "
+                 "(module x {at_sim_start(stage), start stage of the restart, k-th handle_message before / after its sends, at_sim_end} x {non-catching, catching stereotype}, plus every step "
                  "of a joined task) and pairs of placements in two modules (all pairs for small models, 60 sampled otherwise) are executed twice with the real "
                  "code: A panics at the point, B falls silent there. Oracle: A returns (no unwind, no abort: a dead worker counts as violation), the error lists "
                  "exactly the modules whose reached fault is not caught (PanicError / JoinError paths), every non-faulty module's log in A equals its log in B, the "
@@ -426,7 +426,7 @@ PROPERTIES = {
                  "des::runtime::random, choose the out gate and an extra send_in delay from it; start delays drawn with des::runtime::sample; tasks with "
                  "unbiased tokio::select! over three ready futures, select over interval.tick vs a long sleep, random sleeps; a third of the modules requests "
                  "shutdown-and-restart (the restart rebuilds and reseeds the module's tokio runtime), a third emits a message from at_sim_end (never dispatched; "
-                 "it must not reach a later simulation), a third runs 2..8 tasks that sleep to common deadlines and draw a random value when they wake. For each (model, seed): executed twice back to back, once "
+                 "it must not reach a later simulation), a third runs 2..8 tasks that sleep to common deadlines and draw a random value when they wake; the driver draws through Runtime::random / rng_sample between build and run. For each (model, seed): executed twice back to back, once "
                  "more after an unrelated simulation of another shape and seed, and (every fourth model) in a separate child process started with a random junk "
                  "allocation. The trace = every delivery (time, module path, kind, id, content, source, value drawn), timer completion, task wake-up, select "
                  "branch, plus final time / event count / remaining / result; all executions must be byte-identical. Non-trivial = model whose trace "
@@ -447,7 +447,7 @@ PROPERTIES = {
         "level": "exploration",
         "rule": ("random operation sequences (3..62 operations) over a pool of messages whose bodies are drawn from 30 types: u8 u32 i32 f32 [u8;4] u64 u128 bool char "
                  "String Vec<u8> Option Result Box VecDeque BTreeMap () two layout twins, derived named / tuple / unit structs, a derived enum with unit / tuple / "
-                 "named / nested variants, generic derived types, two tracked clonable types, a tracked non-clonable type, a zero-sized type with a counted destructor and a non-debuggable type. Operations: "
+                 "named / nested variants, generic derived types, two tracked clonable types, a tracked non-clonable type, a zero-sized type with a counted destructor and a non-debuggable type; every 500 sequences a probe with two distinct types that share one type name (same-named items in two block scopes). Operations: "
                  "create (set_content* / set_body / with_body), replace content (same or other type), try_clone, probe with a foreign type (can_cast, try_content, "
                  "try_content_mut; layout twins preferred), failing try_cast (message must come back intact), try_cast to the own type, try_content_mut, format, "
                  "drop. Shadow model (type, value, length, id) checked after every operation; tracked values dropped exactly once at the end; length() == 64 + a "
@@ -473,7 +473,7 @@ PROPERTIES = {
         "rule": ("flat dotted-key configurations of 1..8 entries over the segment alphabet {a, al, ali, alice, alicent, b, a1, non-ASCII names, x_y} with '<any>' at "
                  "any depth (also consecutive), entries that address a tested path / a truncated or extended path / a sibling whose name is a prefix, property "
                  "names of 1..2 segments, unique integer values; 1..4 module paths of depth 1..4. Observed through Cfg::capture_for_into and through a real "
-                 "simulation builder with include_cfg before and after the nodes (and their parents) are created: props_keys and prop_raw values. Oracle = "
+                 "simulation builder with include_cfg before and after the nodes (and their parents) are created, and before creation with nodes that read their own properties while they are constructed: props_keys and prop_raw values. Oracle = "
                  "independent matcher (split at '.', '<any>' matches exactly one segment, the rest is the property name, no '<any>' in the name): key sets equal, "
                  "each value is the value of a matching entry, no panic. Typed reads: random sequences of prop::<u64 / String / bool / Vec<u32> / f64> on four "
                  "keys: a successful read pins the type, other types must fail, the pinned / natural type stays readable; in half of the sequences a second configuration is included between the reads (specific or wildcard keys) that carries a value of another type for the properties already typed: type and value must survive. Non-trivial = case with a wildcard "
@@ -494,7 +494,7 @@ PROPERTIES = {
         "crash_is_violation": True,
         "rule": ("grammar-based generator of valid, realisable descriptions over a pool of 12 module names: acyclic submodule / inheritance structure, own and "
                  "inherited gates (atoms and clusters 1..3), submodule fields (atoms and clusters), generic modules with a bound whose fields are typed with the "
-                 "binding and which are instantiated with the bound or an heir, connections local<->local, local<->child, child<->child as whole clusters (equal "
+                 "binding and which are instantiated with the bound or an heir, connections local<->local, local<->child, child<->child (and endpoints two submodule levels down, child/grandchild/gate, pinned to single instances) as whole clusters (equal "
                  "instance counts, pairwise) or pinned single indices, optional links; every gate instance gets at most one connection per level. The document is "
                  "rendered to YAML and goes through serde_yml -> Def -> transform -> Ndl::build into a Sim with a recording registry. Oracle = independent "
                  "reference elaborator: module set path -> software symbol (as seen by the registry), gate clusters per module, set of direct gate connections "
